@@ -67,9 +67,11 @@ def harness(tier, seed):
     runs = 12 if tier == "quick" else 80
     fes = 400 if tier == "quick" else 3000
     viol, evals, distinct, samples = [], 0, 0, []
-    for r in range(runs):
-        n = rng.randint(4, 9)
-        mx = rng.choice([1, 3, 20, 1000, 10 ** 9, 5 * 10 ** 9, 10 ** 12])
+    big = [128, 129, 257] if tier == "quick" else [127, 128, 129, 130, 255, 256, 257]
+    for r in range(runs + len(big)):
+        # the last runs: numbers of cities at the boundaries of the integer types a tour can be stored in
+        n = rng.randint(4, 9) if r < runs else big[r - runs]
+        mx = rng.choice([1, 3, 20, 1000, 10 ** 9, 5 * 10 ** 9, 10 ** 12] if r < runs else [3, 20, 1000])
         m = np.zeros((n, n), np.int64)
         for i in range(n):
             for j in range(i):
@@ -88,15 +90,15 @@ def harness(tier, seed):
             try:
                 cls(inst).solve(p)
             except Exception as ex:   # with NUMBA_BOUNDSCHECK=1 an out-of-range access raises IndexError
-                viol.append((f"{cls.__name__}.solve/raises", {"matrix": m}, repr(ex)))
+                viol.append((f"{cls.__name__}.solve/raises", {"matrix": m if n <= 9 else f"{n} cities, run {r}, seed {seed}"}, repr(ex)))
                 continue
             evals += p.pairs
             distinct += len(p.distinct)
             for (lab, xs, d) in p.violations[:1]:
-                viol.append((f"{cls.__name__}.solve/{lab}", {"matrix": m, "x": xs}, repr(d)))
+                viol.append((f"{cls.__name__}.solve/{lab}", {"matrix": m if n <= 9 else f"{n} cities, run {r}, seed {seed}", "x": xs}, repr(d)))
             if len(samples) < 3:
                 samples.append({"algo": cls.__name__, "n": n, "pairs_registered": p.pairs, "last_y": p.last})
     return {"name": "tsp_solve_monitor", "evaluations": evals, "distinct_nontrivial": distinct,
-            "rule": "random symmetric matrices n in 4..9, both solve() methods, every register(x, y) call checked "
+            "rule": "random symmetric matrices n in 4..9 and n in 127..257 (storage-type boundaries), both solve() methods, every register(x, y) call checked "
                     "(permutation, exact length, EA monotone, y within [0, upper bound]); distinct = distinct tours registered",
             "samples": samples, "violations": viol, "exhaustive": False}
